@@ -187,3 +187,97 @@ Definition wrap2_static (T : ty) (h : (dv -> outcome dv) -> outcome dv) : outcom
   | Some c => apply_ho c Pos h
   | None => Err UnboundTypeVar
   end.
+
+(* ------------------------------------------------------------------ the same checks, read off the
+   GENERATED contract skeleton (one clause per internals.ncl function).  Type variables are
+   identified by their sealing key; [kenv] is the label's type environment (key -> polarity
+   recorded by $forall, i.e. the label's polarity when the forall contract was applied).  Names
+   are erased ([""]) in the variable checks.  [GenChecksProofs.cchecks_subcontract] proves that
+   this reading of the generated contract coincides with [checks] on the type. *)
+
+Fixpoint lookup_nat {A} (k : nat) (l : list (nat * A)) : option A :=
+  match l with
+  | [] => None
+  | (k', a) :: r => if Nat.eqb k k' then Some a else lookup_nat k r
+  end.
+
+Definition cvar_checks (kenv : list (nat * polarity)) (b : cvar) : list chk :=
+  match b with
+  | VForallVar key =>
+      match lookup_nat key kenv with Some q => [here q (KVar "")] | None => [] end
+  | VForallRecordTail key _ =>
+      match lookup_nat key kenv with Some q => [here q (KTailSeal "")] | None => [] end
+  | VForallEnumTail => []
+  | VExcludedOnly _ => []
+  end.
+
+Definition ctail_checks (kenv : list (nat * polarity)) (p : polarity) (fields : list string)
+           (tail : ctail) : list chk :=
+  match tail with
+  | CTEmpty => []
+  | CTDyn => []
+  | CTVar (VExcludedOnly e) => match e with [] => [] | _ => [here p (KExcluded e)] end
+  | CTVar (VForallRecordTail key excluded) =>
+      match lookup_nat key kenv with
+      | Some q =>
+          if polarity_eqb q p then [here q (KTailUnseal "")]
+          else here q (KTailSeal "")
+               :: match set_diff excluded fields with
+                  | [] => []
+                  | e => [here p (KExcluded e)]
+                  end
+      | None => []
+      end
+  | CTVar (VForallVar key) =>
+      match lookup_nat key kenv with Some q => [here q (KVar "")] | None => [] end
+  | CTVar VForallEnumTail => []
+  end.
+
+Fixpoint cchecks (c : cexpr) (p : polarity) (kenv : list (nat * polarity)) {struct c} : list chk :=
+  match c with
+  | CDyn => []
+  | CNum => [here p KNumber]
+  | CStr => [here p KString]
+  | CBool => [here p KBoolean]
+  | CArray e => here p KIsArray :: under SElem (cchecks e p kenv)
+  | CArrayDyn => [here p KIsArray]
+  | CFunc d cd =>
+      here p KIsFun :: under SDom (cchecks d (flip p) kenv) ++ under SCodom (cchecks cd p kenv)
+  | CFuncDom d => here p KIsFun :: under SDom (cchecks d (flip p) kenv)
+  | CFuncCodom cd => here p KIsFun :: under SCodom (cchecks cd p kenv)
+  | CFuncDyn => [here p KIsFun]
+  | CVarRef b => cvar_checks kenv b
+  | CForall key _ body => cchecks body p ((key, p) :: kenv)
+  | CEnum branches default =>
+      here p KIsEnum
+      :: (fix go (bs : list (string * option cexpr)) : list chk :=
+            match bs with
+            | [] => []
+            | (k, None) :: bs' => go bs'
+            | (k, Some c') :: bs' => under (SVariant k) (cchecks c' p kenv) ++ go bs'
+            end) branches
+      ++ match default with None => [here p KEnumTag] | Some _ => [] end
+  | CRecord fields tail has_tail =>
+      here p KIsRecord
+      :: map (fun k => here p (KHasField k)) (keys fields)
+      ++ (fix go (fs : list (string * cexpr)) : list chk :=
+            match fs with
+            | [] => []
+            | (k, c') :: fs' => under (SField k) (cchecks c' p kenv) ++ go fs'
+            end) fields
+      ++ (if has_tail then [] else [here p KNoExtra])
+      ++ ctail_checks kenv p (keys fields) tail
+  | CDictDyn => [here p KIsRecord]
+  | CDictContract c' | CDictType c' => here p KIsRecord :: under SDict (cchecks c' p kenv)
+  | COpaque n => [here p (KOpaque n)]
+  end.
+
+Definition erase_kind (k : ckind) : ckind :=
+  match k with
+  | KVar _ => KVar ""
+  | KTailUnseal _ => KTailUnseal ""
+  | KTailSeal _ => KTailSeal ""
+  | k => k
+  end.
+
+Definition erase (c : chk) : chk := mkChk (c_path c) (c_pol c) (erase_kind (c_kind c)).
